@@ -57,6 +57,10 @@ def configs(tier):
                             tags=['tree', g] + (['R0'] if R0 else [])))
             if g in (('P3', 'S3') if tier == 'quick' else ('P3', 'S3', 'P4')) and len(I0) == 1 and not R0:
                 out.append(dict(family='tree', entry='SIR_pair_based_pure_IC', graph=g, I0=I0, R0=R0, weighted=True, order=4, tags=['tree', g, 'weighted']))
+            if g in ('K2', 'P3') and len(I0) == 1 and not R0:
+                # edges carry networkx's conventional attribute 'weight', but no transmission_weight is named: plain tau on every edge
+                out.append(dict(family='tree', entry='SIR_pair_based_pure_IC', graph=g, I0=I0, R0=R0, weighted=False, order=4, unrelated_weight_attr=True,
+                                tags=['tree', g, 'unrelated-weight-attribute']))
             if g in ('P3', 'S3') and len(I0) == 1 and not R0:
                 nl = {'P3': [0, 2, 1], 'S3': [1, 0, 3, 2]}[g]
                 out.append(dict(family='tree', entry='SIR_pair_based_pure_IC', graph=g, I0=I0, R0=R0, weighted=False, order=4, nodelist=nl,
@@ -150,6 +154,9 @@ def run_tree(h, cfg, expect_mismatch=False):
             rw = lambda a: Poly.const(1)
         if cfg['R0']:
             kw['initial_recovereds'] = list(cfg['R0'])
+        if cfg.get('unrelated_weight_attr'):
+            for i, (u, v) in enumerate(G.edges()):
+                G.edges[u, v]['weight'] = 2 + i
         order = list(nodes)
         if cfg.get('nodelist'):
             order = list(cfg['nodelist'])      # explicit node order (not an automorphism): per-node outputs follow it
@@ -489,6 +496,9 @@ def replay_concrete(cfg, kind, values, decisions):
             rw = lambda a: G.nodes[a]['rw']
         if cfg['R0']:
             kw['initial_recovereds'] = list(cfg['R0'])
+        if cfg.get('unrelated_weight_attr'):
+            for i, (u, v) in enumerate(G.edges()):
+                G.edges[u, v]['weight'] = 2 + i
         if cfg.get('nodelist'):
             kw['nodelist'] = list(cfg['nodelist'])      # (the replay compares population totals, which do not depend on the order)
         try:
